@@ -164,10 +164,9 @@ func (p *Pass) getRelativePath(filePath string) string {
 }
 
 func (p *Pass) function(to *compile.FunctionSpec, fn string, path string, service string) {
-	file := p.getRelativePath(path)
 	if to == nil {
 		p.Report(Diagnostic{
-			FilePath: file,
+			FilePath: path, // already relative to GitDir, see service.
 			Message:  fmt.Sprintf("removing method %q in service %q", fn, service),
 		})
 	}
